@@ -33,7 +33,23 @@ PRIORS = {
     'empty': [],
     'one': [('set', 'k1', 'old1')],
     'two': [('set', 'k1', 'old1'), ('set', 'k2', 'old2')],
+    # a store with a past: an overwritten key, a deleted key, a falsy value (start from non-initial states)
+    'churned': [('set', 'k1', 'x'), ('set', 'k2', 'old2'), ('set', 'k4', 'gone'), ('set', 'k1', 'old1'), ('del', 'k4'),
+                ('set', 'k5', None)],
 }
+
+
+def prior_dict(ops):
+    P = {}
+    for o in ops:
+        if o[0] == 'set':
+            P[o[1]] = o[2]
+        elif o[0] == 'del':
+            P.pop(o[1], None)
+    return P
+
+
+PRE = (('set', 'k2', 'pre2'), ('get', 'k1'))      # fault-free operations on the same handle before the crashing one
 
 
 def operations(tier):
@@ -50,6 +66,14 @@ def operations(tier):
         ('dump', ('dump', (('k1', 'new1'), ('k3', 'new3')))),
         ('open-cached', ('open', True)),
         ('open-direct', ('open', False)),
+        ('popkeys', ('popkeys', ('k1', 'k2'))),
+        ('popkeys-default', ('popkeys', ('k1', 'k9'), 'dflt')),
+        ('dump-one-key', ('dumpk', (('k1', 'new1'), ('k3', 'new3')), 'k3')),
+        ('sync-clear', ('syncclear', (('k1', 'new1'), ('k3', 'new3')))),
+        ('sync', ('sync', (('k1', 'new1'), ('k3', 'new3')))),
+        ('set-none', ('set', 'k3', None)),
+        ('update-empty', ('update', ())),
+        ('copy', ('copy',)),
     ]
     if tier == 'thorough':
         ops += [('set-big', ('set', 'k3', BIG)), ('overwrite-big', ('set', 'k1', BIG))]
@@ -61,8 +85,16 @@ def model_after(P, op):
     k = op[0]
     if k == 'set':
         Q[op[1]] = op[2]
-    elif k in ('update', 'dump'):
+    elif k in ('update', 'dump', 'sync'):
         Q.update(dict(op[1]))
+    elif k == 'dumpk':
+        Q[op[2]] = dict(op[1])[op[2]]
+    elif k == 'syncclear':
+        Q.clear()
+        Q.update(dict(op[1]))
+    elif k == 'popkeys':
+        for q in op[1]:
+            Q.pop(q, None)
     elif k in ('del', 'pop'):
         Q.pop(op[1], None)
     elif k == 'setdefault':
@@ -80,6 +112,8 @@ def applicable(P, op):
         return False
     if k == 'popitem' and not P:
         return False
+    if k == 'popkeys' and len(op) == 2 and any(q not in P for q in op[1]):
+        return False
     if k == 'set' and op[1] == 'k1' and 'k1' not in P:
         return False
     if k == 'setdefault' and op[1] == 'k1' and 'k1' not in P:
@@ -87,8 +121,17 @@ def applicable(P, op):
     return True
 
 
-def check_recovery(rec, P, Q, ctx):
-    """oracle: list of (rule, extra-sig, detail)"""
+def stages(P, op, Q):
+    """states at the boundaries of the listed operations an API call is composed of.  C13 lists set, update,
+    delete, pop, clear and dump as the operations that must be atomic per key; cache.sync(clear=True) is by
+    definition clear() followed by dump(), so the state between the two is a legitimate place to be killed"""
+    if op[0] == 'syncclear':
+        return [P, {}, Q]
+    return [P, Q]
+
+
+def check_recovery(rec, P, Q, ctx, mid=()):
+    """oracle: list of (rule, extra-sig, detail); mid = further legitimate intermediate states"""
     out = []
     if rec is None or not isinstance(rec, dict):
         return [('recovery-process-failed', {}, 'recovery process returned %r' % (rec,))]
@@ -108,7 +151,7 @@ def check_recovery(rec, P, Q, ctx):
             out.append(('phantom-key', {}, 'recovered archive holds key %r that was never stored (prior %r, intended %r)' % (k, P, Q)))
     for k in set(P) | set(Q):
         got = R.get(k, ABSENT)
-        if got != P.get(k, ABSENT) and got != Q.get(k, ABSENT):
+        if got != P.get(k, ABSENT) and got != Q.get(k, ABSENT) and not any(got == M.get(k, ABSENT) for M in mid):
             touched = P.get(k, ABSENT) != Q.get(k, ABSENT)
             out.append(('touched-key-neither-old-nor-new' if touched else 'untouched-key-changed',
                         {'lost': got == ABSENT},
@@ -130,16 +173,15 @@ def _short(x):
 
 
 def _task(task):
-    tier, backend, prior_name, opname, op = task
+    tier, backend, prior_name, opname, op = task[:5]
+    pre = task[5] if len(task) > 5 else ()
     res = {'counts': collections.Counter(), 'violations': [], 'samples': [], 'nontrivial': 0, 'outcomes': set(),
            'caps': [], 'config': task[1:4]}
-    name = '%s prior=%s op=%s' % (backend, prior_name, opname)
+    name = '%s prior=%s%s op=%s' % (backend, prior_name, '+same-handle-wrote-before' if pre else '', opname)
     srv = fsgate.server()
     prior = PRIORS[prior_name]
-    P = {}
-    for o in prior:
-        P[o[1]] = o[2]
-    base = {'backend': backend, 'prior': prior, 'op': op}
+    P = prior_dict(list(prior) + list(pre))
+    base = {'backend': backend, 'prior': prior, 'op': op, 'pre_ops': list(pre)}
 
     def run(mode, kill_at=-1, kill_short=0):
         spec = dict(base)
@@ -153,7 +195,7 @@ def _task(task):
     res['counts']['evaluations'] += 1
     res['counts']['histories'] += 1
     sigbase = {'backend': backend, 'op': opname, 'prior': prior_name}
-    rep = {'backend': backend, 'prior': prior_name, 'opname': opname, 'op': list(op)}
+    rep = {'backend': backend, 'prior': prior_name, 'opname': opname, 'op': list(op), 'pre_ops': [list(o) for o in pre]}
     if log['result'] is None or log['result'][0] not in ('ret',):
         res['violations'].append(v(dict(sigbase, rule='operation-fails-without-crash'),
                                    '%s: operation failed without any fault: %r' % (name, log['result']), dict(rep, kill_at=None)))
@@ -180,7 +222,7 @@ def _task(task):
             res['counts']['crash_points'] += 1
             if not r['killed']:
                 raise RuntimeError('nondeterminism not owned: %s was not killed at event %d (%s); events now %r' % (name, i, kind, r['events'][-3:]))
-            found = check_recovery(r['recovery'], P, Q, name)
+            found = check_recovery(r['recovery'], P, Q, name, mid=stages(P, op, Q)[1:-1])
             res['outcomes'].add((kind, tuple(sorted(f[0] for f in found))))
             res['nontrivial'] += 1
             for rule, extra, detail in found:
@@ -207,13 +249,23 @@ def tasks_for(tier):
     backs = BACKENDS_Q if tier == 'quick' else BACKENDS_Q + ['dir-memmode']
     for b in backs:
         for pn, prior in PRIORS.items():
-            P = {o[1]: o[2] for o in prior}
+            P = prior_dict(prior)
             for opname, op in operations(tier):
                 if not applicable(P, op):
                     continue
-                if tier == 'quick' and pn == 'one' and opname in ('popitem', 'setdefault-present', 'pop'):
+                if tier == 'quick' and pn == 'one' and opname in ('popitem', 'setdefault-present', 'pop', 'popkeys-default', 'sync', 'update-empty'):
                     continue
-                tasks.append((tier, b, pn, opname, op))
+                if tier == 'quick' and pn == 'churned' and opname in ('popitem', 'setdefault', 'setdefault-present', 'pop', 'open-cached', 'update-empty', 'set-none'):
+                    continue
+                tasks.append((tier, b, pn, opname, op, ()))
+        # the crashing operation is not the first thing this handle does
+        P = prior_dict(list(PRIORS['one']) + list(PRE))
+        for opname, op in operations(tier):
+            if not applicable(P, op) or op[0] == 'open':
+                continue
+            if tier == 'quick' and opname not in ('set-new', 'overwrite', 'update', 'del', 'clear', 'dump', 'popkeys', 'sync-clear'):
+                continue
+            tasks.append((tier, b, 'one', opname, op, PRE))
     return tasks
 
 
@@ -236,14 +288,15 @@ def replay(doc):
     pool._init_worker(pool.scratch_base())
     backend, pn, op = doc['backend'], doc['prior'], tuple(tuple(tuple(y) if isinstance(y, list) else y for y in x) if isinstance(x, list) else x for x in doc['op'])
     srv = fsgate.server()
-    P = {o[1]: o[2] for o in PRIORS[pn]}
-    spec = {'backend': backend, 'prior': PRIORS[pn], 'op': op, 'root': pool.fresh_dir('k'),
+    pre = [tuple(o) for o in doc.get('pre_ops', [])]
+    P = prior_dict(list(PRIORS[pn]) + pre)
+    spec = {'backend': backend, 'prior': PRIORS[pn], 'op': op, 'pre_ops': pre, 'root': pool.fresh_dir('k'),
             'mode': 'log' if doc.get('kill_at') is None else 'kill', 'kill_at': doc.get('kill_at') or -1, 'kill_short': doc.get('kill_short', 0)}
     r = srv.request({'cmd': 'crash', 'spec': spec})
     Q = model_after(P, op)
     if Q is None:
         Q = P
     print('killed:', r['killed'], 'recovery:', r['recovery'])
-    found = check_recovery(r['recovery'], P if r['killed'] else Q, Q, '')
+    found = check_recovery(r['recovery'], P if r['killed'] else Q, Q, '', mid=stages(P, op, Q)[1:-1] if r['killed'] else ())
     srv.close()
     return [({'rule': f[0]}, f[2]) for f in found]
